@@ -265,6 +265,13 @@ def auto_discharge(prog, sink):
                             hit = True
                 if hit:
                     good += 1
+            # (for a str, `bound <= len` is not enough: the bound must also be a character boundary -- only 0 and the length
+            # itself are known to be one; a byte offset into percent-decoded text can split a multi-byte character)
+            if sink.what == "str index":
+                for o in bounds:
+                    oc = guards.const_int(fn.origin(o)[-1][1]) if fn.origin(o) and fn.origin(o)[-1][0] == "const" else None
+                    if oc != 0 and not guards.is_len_origin(fn, fn.origin(o)):
+                        good = -1
             if bounds and good == len(bounds):
                 return True, "every bound of the range was compared `<= len` on a dominating edge"
     if sink.kind == "assert" and sink.what == "BoundsCheck":
